@@ -1,5 +1,6 @@
 SPECIFICATION TSpec
 CONSTANTS
+  Fault = "none"
   Cfgs = {}
   Soc0s = {}
   Dts = {}
